@@ -351,8 +351,14 @@ func compileMetadata(
 	}
 	keyspace.Aggregates = make(map[string]*AggregateMetadata, len(aggregates))
 	for i, _ := range aggregates {
-		aggregates[i].FinalFunc = *keyspace.Functions[aggregates[i].finalFunc]
-		aggregates[i].StateFunc = *keyspace.Functions[aggregates[i].stateFunc]
+		// the final function is optional and the functions may not (yet) be
+		// listed, dont dereference a function which is not there
+		if f, ok := keyspace.Functions[aggregates[i].finalFunc]; ok {
+			aggregates[i].FinalFunc = *f
+		}
+		if f, ok := keyspace.Functions[aggregates[i].stateFunc]; ok {
+			aggregates[i].StateFunc = *f
+		}
 		keyspace.Aggregates[aggregates[i].Name] = &aggregates[i]
 	}
 	keyspace.Views = make(map[string]*ViewMetadata, len(views))
